@@ -70,8 +70,6 @@ def all_defs(func):
                 out.setdefault(nm, []).append(Def("import", None, n))
         elif isinstance(n, FuncTypes + (ast.ClassDef,)) and n is not func:
             out.setdefault(n.name, []).append(Def("def", None, n))
-        elif isinstance(n, ast.comprehension):
-            _targets(n.target, n.iter, enclosing_stmt(n), "comp", out)
     return out
 
 
@@ -118,6 +116,10 @@ def leaves(defs, expr, depth=6, _seen=None):
             for df in ds:
                 if df.kind == "param":
                     out.add(("param", e.id))
+                elif df.kind == "comp":
+                    if d > 0 and (e.id, id(df)) not in _seen:
+                        _seen.add((e.id, id(df)))
+                        rec(df.value, d - 1)
                 elif df.kind in ("import", "def", "except"):
                     out.add(("name", e.id))
                 elif d <= 0 or (e.id, id(df)) in _seen:
@@ -127,6 +129,30 @@ def leaves(defs, expr, depth=6, _seen=None):
                     if df.kind == "unpack":
                         out.add(("unpack", f"{unparse(df.value)}[{df.index}]"))
                     rec(df.value, d - 1)
+        elif isinstance(e, (ast.ListComp, ast.SetComp, ast.GeneratorExp, ast.DictComp)):
+            # comprehension variables are local to the comprehension: they stand for their iterables
+            local = {}
+            for g in e.generators:
+                _targets(g.target, g.iter, None, "comp", local)
+            saved = {k: defs.get(k) for k in local}
+            for k, v in local.items():
+                defs[k] = v
+            try:
+                for g in e.generators:
+                    rec(g.iter, d)
+                    for c in g.ifs:
+                        rec(c, d)
+                if isinstance(e, ast.DictComp):
+                    rec(e.key, d)
+                    rec(e.value, d)
+                else:
+                    rec(e.elt, d)
+            finally:
+                for k, v in saved.items():
+                    if v is None:
+                        defs.pop(k, None)
+                    else:
+                        defs[k] = v
         elif isinstance(e, ast.Call):
             out.add(("call", dotted(e.func) or unparse(e.func)))
             for a in e.args:
